@@ -168,3 +168,21 @@ def _memmap(I, a, k):
         arr.facts_on_read = lambda idx, t: [t >= rng[0], t <= rng[1]]
     arr.file_key = key
     return arr
+
+
+class GhostFile:
+    """file opened for writing: ndarray.tofile(f) appends; every write is recorded (array snapshot, rows already written)"""
+
+    def __init__(self, name="file"):
+        self.name = name
+        self.writes = []
+        self.closed = False
+
+    def write_array(self, arr):
+        if self.closed:
+            from .interp import PyRaise
+            raise PyRaise(ValueError("I/O operation on closed file"))
+        self.writes.append(arr.copy())
+
+    def close(self):
+        self.closed = True
